@@ -41,6 +41,12 @@ pub struct IncCase {
     /// A second producer (in the root project) with the same output command text.
     #[serde(default)]
     pub second_producer: bool,
+    /// The consumer also declares a command that prints more than a pipe buffer (70 000 bytes).
+    #[serde(default)]
+    pub big_cmd: bool,
+    /// BB only: the first invocation's script is killed by a signal (never completes).
+    #[serde(default)]
+    pub kill_first: bool,
 }
 
 pub fn inc_case(neutral_only: bool) -> impl Strategy<Value = IncCase> {
@@ -49,10 +55,10 @@ pub fn inc_case(neutral_only: bool) -> impl Strategy<Value = IncCase> {
         (0u8..14, any::<bool>(), any::<bool>()),
         tree_spec(10, true),
         prop::collection::vec((0u8..21, any::<u8>()), if neutral_only { 0..=4 } else { 1..=6 }),
-        (0u8..3, any::<bool>(), any::<bool>()),
+        (0u8..3, any::<bool>(), any::<bool>(), 0u8..8, 0u8..4),
     )
         .prop_map(
-            move |((layout, src_ext, second_files, own_cmd, out_paths, out_cmd), (prod_paths_ext, prod_paths, prod_cmd), tree, edits, (extra_invocations, also_dependency, second_producer))| {
+            move |((layout, src_ext, second_files, own_cmd, out_paths, out_cmd), (prod_paths_ext, prod_paths, prod_cmd), tree, edits, (extra_invocations, also_dependency, second_producer, big_b, kill_b))| {
                 // links are excluded here (the model must be exact): keep files and dirs
                 let tree = TreeSpec {
                     entries: tree
@@ -82,6 +88,8 @@ pub fn inc_case(neutral_only: bool) -> impl Strategy<Value = IncCase> {
                     neutral_only,
                     also_dependency: also_dependency && layout > 0,
                     second_producer: second_producer && layout >= 2,
+                    big_cmd: big_b == 0,
+                    kill_first: kill_b == 0,
                 }
             },
         )
@@ -191,6 +199,9 @@ fn declare(case: &IncCase, sb: &Sandbox) -> (Value, Option<Value>) {
     if case.own_cmd {
         input.push(json!({"cmd_stdout": "cat v.txt"}));
     }
+    if case.big_cmd {
+        input.push(json!({"cmd_stdout": "cat lib/big.bin"}));
+    }
     let pref = match case.layout {
         0 => None,
         1 => Some("p".to_string()),
@@ -214,7 +225,7 @@ fn declare(case: &IncCase, sb: &Sandbox) -> (Value, Option<Value>) {
     if case.out_cmd {
         output.push(json!({"cmd_stdout": "cat o.txt"}));
     }
-    let consumer = json!({"dependencies": consumer_deps, "build": build_script("c", ""), "input": input, "output": output});
+    let consumer = json!({"dependencies": consumer_deps, "build": build_script("c", "if [ -e \"$ZV_ROOT/killme\" ]; then rm -f \"$ZV_ROOT/killme\"; kill -9 $$; fi"), "input": input, "output": output});
     let p2 = json!({"build": build_script("p2", ""), "output": [{"cmd_stdout": "cat v.txt"}, {"paths": ["gen2"]}]});
     // producer
     let mut pout: Vec<Value> = vec![];
@@ -304,6 +315,9 @@ pub fn build_world(case: &IncCase, tag: &str) -> Result<World, String> {
     if case.own_cmd {
         input.push(MRes::Cmd(canon.clone(), "cat v.txt".into()));
     }
+    if case.big_cmd {
+        input.push(MRes::Cmd(canon.clone(), "cat lib/big.bin".into()));
+    }
     let mut inherited = vec![];
     if case.second_producer {
         sb.write("proj/gen2/g.txt", b"second producer output\n");
@@ -362,14 +376,27 @@ pub fn build_world(case: &IncCase, tag: &str) -> Result<World, String> {
 
 /// One call of the real incremental step with a harness future standing for the script.
 pub fn call_incremental(b: &BuildTarget) -> Result<(IncrementalRunResult, bool), String> {
-    let ran = Cell::new(false);
-    let fut = async {
-        ran.set(true);
-        Ok(BuildTerminationReport::Completed)
-    };
-    let r = async_std::task::block_on(incremental::run(&b.metadata, &b.input, Some(&b.output), fut))
-        .map_err(|e| format!("{:#}", e))?;
-    Ok((r, ran.get()))
+    // The step takes milliseconds; it runs on its own thread under a 10 s watchdog so that a
+    // step that never returns (e.g. a command whose output is never drained) is reported
+    // instead of blocking the worker for ever.
+    let (tx, rx) = std::sync::mpsc::channel();
+    let metadata = b.metadata.clone();
+    let input = b.input.clone();
+    let output = b.output.clone();
+    std::thread::spawn(move || {
+        let ran = std::sync::atomic::AtomicBool::new(false);
+        let fut = async {
+            ran.store(true, std::sync::atomic::Ordering::SeqCst);
+            Ok(BuildTerminationReport::Completed)
+        };
+        let r = async_std::task::block_on(incremental::run(&metadata, &input, Some(&output), fut))
+            .map_err(|e| format!("{:#}", e));
+        let _ = tx.send(r.map(|r| (r, ran.load(std::sync::atomic::Ordering::SeqCst))));
+    });
+    match rx.recv_timeout(std::time::Duration::from_secs(10)) {
+        Ok(r) => r,
+        Err(_) => Err("HANG: the incremental step did not return within 10 s".into()),
+    }
 }
 
 fn bump_mtime(p: &Path, counter: &mut i64) {
@@ -708,6 +735,9 @@ pub fn eval_inc(case: &IncCase, which: &str) -> CaseResult {
     // --- history ----------------------------------------------------------------------------
     let (r1, ran1) = match call_incremental(b) {
         Ok(x) => x,
+        Err(e) if e.starts_with("HANG") => {
+            return fail(res, "hang", format!("first run: {} (declared commands: big output = {})", e, case.big_cmd), json!({}));
+        }
         Err(e) => {
             res.inconclusive = Some(format!("first run failed: {}", e));
             return res;
@@ -735,6 +765,9 @@ pub fn eval_inc(case: &IncCase, which: &str) -> CaseResult {
     let s2 = snapshot_resources(&all);
     let (r2, ran2) = match call_incremental(b) {
         Ok(x) => x,
+        Err(e) if e.starts_with("HANG") => {
+            return fail(res, "hang", format!("second run: {}", e), json!({}));
+        }
         Err(e) => {
             res.inconclusive = Some(format!("second run failed: {}", e));
             return res;
@@ -865,6 +898,39 @@ pub fn eval_inc_bb(case: &IncCase, which: &str) -> CaseResult {
         }
         Some((started(&w.sb.trace(), "c") > 0, out))
     };
+    if case.kill_first && which == "c02" {
+        // the script of the very first invocation is killed by a signal: the target never ran to
+        // successful completion, so the next invocation (nothing edited) must run it
+        w.sb.write("killme", b"1");
+        let (ran0, out0) = match run(&w) {
+            Some(x) => x,
+            None => {
+                res.inconclusive = Some("still busy".into());
+                return res;
+            }
+        };
+        let _ = std::fs::remove_file(w.sb.path("killme"));
+        if ran0 {
+            let (ran_next, _o) = match run(&w) {
+                Some(x) => x,
+                None => {
+                    res.inconclusive = Some("still busy".into());
+                    return res;
+                }
+            };
+            res.classes = vec!["first-script-killed".into()];
+            res.nontrivial = true;
+            res.fingerprint = format!("killed-first|{}", case.layout);
+            res.sample = json!({"layout": case.layout, "first_invocation": "script killed by SIGKILL", "first_exit": out0.code(), "next_invocation": if ran_next {"ran"} else {"skipped"}});
+            if !ran_next {
+                let msg = "real binary: the first run's script was killed by a signal, yet the next invocation reports the build as skipped (it never ran to successful completion)".to_string();
+                res.signature = Some("bb-c02:skipped-after-killed-script".into());
+                res.replay = json!({"engine": "BBINC-c02", "case": serde_json::to_value(case).unwrap(), "message": msg});
+                res.violation = Some(msg);
+            }
+            return res;
+        }
+    }
     let (ran1, out1) = match run(&w) {
         Some(x) => x,
         None => {
